@@ -128,6 +128,15 @@ class Rep:
                 out[key] = v
         return out
 
+    def flags(self, flags, defaults):
+        """Boolean keyword flags in other representations; a flag that has its documented default value may be left out."""
+        out = {}
+        for key, v in flags.items():
+            if key in defaults and v == defaults[key] and self._next(3) == 1:
+                continue
+            out[key] = self.bool(v)
+        return out
+
     def tag(self, res):
         if self.nonplain:
             res.tag('representation:non-plain')
